@@ -8,7 +8,7 @@
    - higherordercomposites.py: polymorph_response, PolyScaleComposite,
      PolyFixedVariableComposite ; truncatecomposite.py ; tracking.py ; structure.py *)
 From Coq Require Import List ZArith QArith Qcanon Bool Arith.
-From Dimod Require Import Base.Util Model.Poly Model.HPoly Model.Samples Model.Comb Gen.Gen_PolyScale.
+From Dimod Require Import Base.Util Model.Poly Model.HPoly Model.Samples Model.Comb Gen.Gen_PolyScale Gen.Gen_ExactHoc.
 Import ListNotations.
 Open Scope Qc_scope.
 
@@ -31,21 +31,23 @@ Definition zrange (lb ub : Z) : list Z :=
 Inductive vdom := DBin | DSpin | DInt (lb ub : Z) | DIntQ (lb ub : Qc).
 
 (* math.floor / math.ceil of a rational *)
-Definition qfloor (q : Qc) : Z := (Qnum q / Zpos (Qden q))%Z.
-Definition qceil (q : Qc) : Z := (- ((- Qnum q) / Zpos (Qden q)))%Z.
+Definition qfloor (q : Qc) : Z := gfloor q.
+Definition qceil (q : Qc) : Z := gceil q.
 
-(* _iterator_by_vartype: range(math.ceil(lower_bound), math.floor(upper_bound) + 1) *)
+(* _iterator_by_vartype: the three domain constructions are GENERATED from the source
+   (Gen/Gen_ExactHoc.v): range(2), [-1, 1], range(math.ceil(lower_bound), math.floor(upper_bound) + 1);
+   DInt is the specification-level domain lb..ub for integral bounds *)
 Definition dom_values (d : vdom) : list Z :=
   match d with
-  | DBin => [0; 1]%Z
-  | DSpin => [-1; 1]%Z
+  | DBin => gen_binary_values
+  | DSpin => gen_spin_values
   | DInt lb ub => zrange lb ub
-  | DIntQ lb ub => zrange (qceil lb) (qfloor ub)
+  | DIntQ lb ub => gen_integer_values lb ub
   end.
 
 (* _all_cases_dqm: meshgrid of range(num_cases(v)) *)
 Definition all_cases_dqm (ncases : list nat) : list (list Z) :=
-  mesh (map (fun n => zrange 0 (Z.of_nat n - 1)) ncases).
+  mesh (map gen_dqm_values ncases).
 
 (* _all_cases_cqm: `sizes` = number of variables of each constraint marked discrete
    (in the iteration order of cqm.discrete), `doms` = domains of the remaining
@@ -250,6 +252,18 @@ Definition polyscale_problem (scalar : option Qc) (lr pr : Qc * Qc) (ign : list 
             (q, ratio_scalar ign p q)
   end.
 
+(* BinaryPolynomial.normalize divides the four extrema by the four bounds unconditionally: a zero
+   bound is a ZeroDivisionError (None); an explicit scalar never reaches normalize *)
+Definition zero_bound (lr pr : Qc * Qc) : bool :=
+  Qc_eqb (fst lr) 0 || Qc_eqb (snd lr) 0 || Qc_eqb (fst pr) 0 || Qc_eqb (snd pr) 0.
+
+Definition polyscale_call (scalar : option Qc) (lr pr : Qc * Qc) (ign : list (list label))
+           (p : hpoly) : option (hpoly * Qc) :=
+  match scalar with
+  | Some _ => Some (polyscale_problem scalar lr pr ign p)
+  | None => if zero_bound lr pr then None else Some (polyscale_problem scalar lr pr ign p)
+  end.
+
 (* post-processing: recompute when there are ignored terms, else `energy /= scalar` *)
 Definition polyscale_result (orig : hpoly) (k : Qc) (ign : list (list label)) (r : result) : result :=
   match ign with
@@ -375,3 +389,28 @@ Definition cqm_case_samples (order : list label) (sizes : list nat) (doms : list
    linear bias (x*x = x); from_ising(h, J) is ising_poly h J (self-loops in J are rejected) *)
 Definition from_qubo (Q : list qterm) : poly :=
   fold_left (fun p t => add_quadratic (fun _ => BINARY) (fst (fst t)) (snd (fst t)) (snd t) p) Q pzero.
+
+(* ------------------------------------------------------------------ *)
+(* _all_cases_cqm as written: for indexes in product(range(d) ...): build l by concatenating
+   zeros-with-a-one, then one row per row of c1 (or l alone when c1 is empty); the loop is left
+   at once when there is no discrete constraint; no combination at all -> c1 *)
+Definition onehot_concat (sizes indexes : list nat) : list Z :=
+  fold_left (fun l di => l ++ onehot (fst di) (snd di)) (combine sizes indexes) [].
+
+Definition cqm_combinations (sizes : list nat) (c1 : list (list Z)) : list (list Z) :=
+  match sizes with
+  | [] => []                                              (* if not len(indexes): break *)
+  | _ => flat_map (fun indexes =>
+                     let l := onehot_concat sizes indexes in
+                     match c1 with
+                     | [] => [l]
+                     | _ => map (fun row => l ++ row) c1
+                     end) (product (map (fun d => seq 0 d) sizes))
+  end.
+
+Definition all_cases_cqm_code (sizes : list nat) (doms : list vdom) : list (list Z) :=
+  let c1 := match doms with [] => [] | _ => mesh (map dom_values doms) end in
+  match cqm_combinations sizes c1 with
+  | [] => c1
+  | combos => combos
+  end.
